@@ -42,6 +42,8 @@ MANIFEST = dict(
     design='§5 C10')
 
 LANGS = ['c', 'cpp', 'py', 'html']
+# (key, prefix, suffix) each language's unique-name filter passes to UniqueNameGenerator: overwritten at the start of every run
+# from the source of /repo (derive_uniq_tables); these literals are only the fallback when that fails (which is reported)
 UNIQ_ARGS = {'c': ('c', '_', '_'), 'cpp': ('cpp', '_', '_'), 'py': ('py', '_', '_'), 'html': ('html', '', '')}
 # how a user template asks for a unique name.  For C++ the argument is made non-constant on purpose: the C++ filter is a plain
 # (non-volatile, non-context) filter, so Jinja evaluates it at template COMPILE time when its argument is a literal -- known
@@ -120,6 +122,26 @@ def alone_oracle(text: str, pps) -> str:
     if not pps:
         return text
     return linepp.oracle([text], pps)
+
+
+def derive_uniq_tables() -> typing.Optional[str]:
+    """UNIQ_ARGS / UNIQ_EXPR from the source of /repo (tools/translators/gen_c10.uniq_filters): which filter hands out unique
+    names in each language, with which key/prefix/suffix, and whether Jinja may fold it at compile time (plain filter: the
+    argument is then made non-literal, see F-CPP-UNIQ-FOLD).  Returns an error text when the source cannot be read that way."""
+    try:
+        from tools.translators import gen_c10
+        fs = gen_c10.uniq_filters()
+    except Exception as ex:  # noqa
+        return 'unique-name filters could not be derived from the source: %r' % (ex,)
+    seen = set()
+    for f in fs:
+        if f['lang'] in seen:
+            return 'language %s has more than one unique-name filter' % f['lang']
+        seen.add(f['lang'])
+        UNIQ_ARGS[f['lang']] = (f['key'], f['prefix'], f['suffix'])
+        UNIQ_EXPR[f['lang']] = ('"%s" | ' if f['registration'] != 'plain' else '("%s" ~ T.short_name[:0]) | ') + f['filter']
+    missing = [l for l in LANGS if l not in seen]
+    return ('no unique-name filter found for %s' % missing) if missing else None
 
 
 def skel(text: str) -> str:
@@ -685,8 +707,11 @@ def main(chk: core.Check, replay: typing.Optional[str] = None) -> int:
                 chk.known.append(e)
 
     # 1. proof obligations against the regenerated translation
-    res = core.coq_check('C10', ['uni', 'linepp', 'uniq'])
+    res = core.coq_check('C10', ['uni', 'linepp', 'uniq', 'sites'])
     chk.proof_coverage(res, [
+        'scanner tools/translators/gen_c10.py (generator sites): AST patterns for lru_cache/cache, cached_property, instance memos, '
+        'lazy fields, class singletons, mutable class/module containers, global; bundled jinja2/markupsafe not scanned; '
+        'Gen/GenStateSites.v expected_sites is a reviewed snapshot',
         'T2 translators: tools/translators/pyfun_tr.py (LimitEmptyLines, TrimTrailingWhitespace), tools/translators/gen_c10.py '
         '(UniqueNameGenerator.__init__/reset/get_instance/__call__; position of UniqueNameGenerator.reset() in _generate_code)',
         'hand model Gen/GenState.v of _generate_code / generate_all / process state, tied by the correspondence runs below',
@@ -695,6 +720,9 @@ def main(chk: core.Check, replay: typing.Optional[str] = None) -> int:
         'extraction: Require Extraction ExtrOcamlBasic only; OCaml 4.13.1; ocaml/c10_driver.ml',
     ])
     broken: typing.List[str] = []
+    err = derive_uniq_tables()
+    if err:
+        broken.append(err)
     if not res.ok:
         broken.append('proof obligation: %s %s' % (res.failed_file or 'translator', res.failed_theorem or ''))
     resets_fact = True
@@ -821,6 +849,10 @@ def main(chk: core.Check, replay: typing.Optional[str] = None) -> int:
         if h.kind == 'builtin' and 'fresh' in h.name and entries and not errs:
             e = entries[0]
             alone_builtin.setdefault((h.cfgs[e['cfg']]['lang'], e['cfg'], e['mkey']), (e['text'], h.name + ' (first file of a new interpreter)'))
+    for h, (entries, ops, errs) in zip(hists, lined):       # then: any file of a new interpreter that generated one namespace once
+        if h.kind == 'builtin' and 'fresh' in h.name and not errs:
+            for e in entries:
+                alone_builtin.setdefault((h.cfgs[e['cfg']]['lang'], e['cfg'], e['mkey']), (e['text'], h.name + ' (new interpreter)'))
     for h, (entries, ops, errs), m in zip(hists, lined, models):
         if h.kind == 'probe':
             continue
